@@ -92,6 +92,11 @@ FamPad ==
       : role \in Roles, fl \in {0, 247}, bp \in {0, 3}, i \in {3, 5}, cs \in { <<>>, <<4>> },
         pads \in { <<1>>, <<7, 0>> }, ep \in {0, 1, 8} }
 
+\* ---- paddings larger than the whole buffer (legal up to 255): padding must be skipped as it arrives, never buffered
+FamBigPad ==
+  { W(ReqItems(1, 1, bp, 3, <<4>>, << pp, 0 >>, ep), << PL[3] >>, 0, "pad", TRUE)
+      : bp \in {0, B + 1}, pp \in {B, B + 1, 255}, ep \in {0, 255} }
+
 \* ---- family "inter": one interleaved record at every gap
 FamInter ==
   UNION { LET base == ReqItems(1, 0, 0, i, cs, <<1>>, 0) IN
@@ -140,7 +145,7 @@ FamBoundGV ==
           : cs \in { <<>>, <<5>> } }
 
 WireSet ==
-  (IF "cuts" \in Menu THEN FamCuts2 ELSE {}) \cup (IF "pad" \in Menu THEN FamPad ELSE {})
+  (IF "cuts" \in Menu THEN FamCuts2 ELSE {}) \cup (IF "pad" \in Menu THEN FamPad \cup FamBigPad ELSE {})
   \cup (IF "inter" \in Menu THEN FamInter ELSE {}) \cup (IF "hostile" \in Menu THEN FamHostile ELSE {})
   \cup (IF "trunc" \in Menu THEN FamTrunc ELSE {}) \cup (IF "bound" \in Menu THEN FamBound \cup FamBoundGV ELSE {})
 WSeq == TLCEval(SetToSeq(WireSet))
